@@ -71,11 +71,15 @@ def configs(tier, seed):
         ("uint32", 1, (1, 1, 4), (2, 1, 1)),      # two blocks sharing tables
         ("uint64", 1, (1, 3, 3), (3, 3, 1)),      # 9 voxels -> up to width 4
         ("uint32", 1, (2, 2, 1), (2, 2, 2)),      # chunk thinner than the block along x (several labels in the partial block)
+        ("uint64", 1, (1, 2, 2), (2, 2, 1), dict(in_dtype="uint32")),      # labels handed over as uint32 / uint8 / uint16 arrays
+        ("uint64", 2, (1, 1, 2), (2, 1, 1), dict(in_dtype="uint8")),
+        ("uint32", 1, (1, 2, 2), (2, 2, 2), dict(in_dtype="uint16")),
         ("uint64", 1, (2, 1, 2), (2, 2, 2)),      # ... along y
         ("uint32", 1, (1, 2, 1), (2, 4, 1)),      # ... along x and y, non-cubic block
     ]
     for b in base:
-        out.append(_cfg(*b, cost=3 if b[2][0] * b[2][1] * b[2][2] >= 8 else 1))
+        extra = b[4] if len(b) > 4 else {}
+        out.append(_cfg(*b[:4], cost=3 if b[2][0] * b[2][1] * b[2][2] >= 8 else 1, **extra))
     if tier == "thorough":
         more = [
             ("uint64", 1, (2, 2, 4), (2, 2, 2)), ("uint32", 1, (2, 4, 2), (2, 2, 2)),
@@ -127,7 +131,8 @@ def H_roundtrip(ctx, cfg):
     dtype, C = cfg["dtype"], cfg["C"]
     Z, Y, X = cfg["shape"]
     block = cfg["block"]
-    chunk = SArray.fresh((C, Z, Y, X), dtype, "v")
+    # the labels may be handed over in a narrower integer type that casts safely to the dataset's type
+    chunk = SArray.fresh((C, Z, Y, X), cfg.get("in_dtype", dtype), "v")
     if cfg.get("concrete"):
         # all but a few voxels carry fixed pairwise distinct labels (forces the wide bit widths); the others stay symbolic
         from ..values import SBV
@@ -167,12 +172,16 @@ def H_roundtrip(ctx, cfg):
         return
     if conds:
         ctx.prove(z3.And(conds), "table-indices-inside-table")
-    eqs = [dec[c][z][y][x] == chunk.a[c, z, y, x].e
+    wbits = 8 * itemsize
+
+    def lab(e):          # the label as a value of the dataset's type
+        return z3.ZeroExt(wbits - e.size(), e) if e.size() < wbits else e
+    eqs = [dec[c][z][y][x] == lab(chunk.a[c, z, y, x].e)
            for c in range(C) for z in range(Z) for y in range(Y) for x in range(X)]
     _prove_all(ctx, eqs, "spec-decoder-recovers-labels")
     own = enc.decode(SBytes(buf), (X, Y, Z))
     ctx.prove(own.shape == (C, Z, Y, X) and own.dtype == real_np.dtype(dtype), "own-decoder-shape-dtype")
-    eqs = [own.a[idx].e == chunk.a[idx].e for idx in real_np.ndindex(C, Z, Y, X)]
+    eqs = [own.a[idx].e == lab(chunk.a[idx].e) for idx in real_np.ndindex(C, Z, Y, X)]
     _prove_all(ctx, eqs, "own-decoder-recovers-labels")
 
 
@@ -200,7 +209,7 @@ def replay(cfg, cex):
     dtype, C = cfg["dtype"], cfg["C"]
     Z, Y, X = cfg["shape"]
     block = cfg["block"]
-    chunk = real_np.array(cex["inputs"]["chunk"], dtype=real_np.uint64).astype(dtype).reshape(C, Z, Y, X)
+    chunk = real_np.array(cex["inputs"]["chunk"], dtype=real_np.uint64).astype(cfg.get("in_dtype", dtype)).reshape(C, Z, Y, X)
     enc = ce.CompressedSegmentationEncoder(dtype, C, block)
     try:
         buf = enc.encode(chunk)
@@ -218,6 +227,6 @@ def replay(cfg, cex):
         own = enc.decode(bytes(buf), (X, Y, Z))
     except Exception as e:
         return True, f"own decoder raised {type(e).__name__}: {e}"
-    if own.shape != chunk.shape or own.dtype != chunk.dtype or not real_np.array_equal(own, chunk):
+    if own.shape != chunk.shape or own.dtype != real_np.dtype(dtype) or not real_np.array_equal(own, chunk):
         return True, f"own decoder returns {own.ravel().tolist()} for {chunk.ravel().tolist()}"
     return False, "round trip correct on the real code"
